@@ -47,8 +47,20 @@ def execute(case, before_call=None, after_call=None):
             s0 = len(net.socks)
             if before_call:
                 before_call(w, i, op)
+            t0 = w.clock.now()
+            slow = (case.get("slow") or {}).get(i)
+            if slow:
+                # a slow server: virtual time passes while the call waits in its first recv()
+                state = {"done": False}
+
+                def on_call(typ, sock, state=state, slow=slow):
+                    if typ == fakenet.T_RECV and not state["done"]:
+                        state["done"] = True
+                        w.clock.advance(slow)
+                net.on_call = on_call
             out = w.call(i, op)
-            rec = {"i": i, "op": op, "out": out, "alarms": net.alarms[a0:],
+            net.on_call = None
+            rec = {"i": i, "op": op, "out": out, "alarms": net.alarms[a0:], "t0": t0, "t1": w.clock.now(),
                    "events": net.events[e0:], "new_socks": net.socks[s0:],
                    "recv": sum(1 for ev in net.events[e0:] if ev[0] == fakenet.T_RECV),
                    "io": sum(1 for ev in net.events[e0:] if ev[0] in (fakenet.T_RECV, fakenet.T_SENDALL)),
